@@ -543,6 +543,9 @@ type VerifFamilyInfo struct {
 func VerifC09Families(extraMax map[string]int) []VerifFamilyInfo {
 	var out []VerifFamilyInfo
 	for _, f := range vallFamilies() {
+		if f.NoC09 {
+			continue
+		}
 		if m, ok := extraMax[f.Name]; ok && int16(m) > f.MaxVersion && vhasVersion(f.Type) {
 			f.MaxVersion = int16(m)
 		}
@@ -573,6 +576,9 @@ func VerifC09Units(maxDev int, extraMax map[string]int) []VerifUnit {
 	VerifC09Families(extraMax)
 	var out []VerifUnit
 	for _, f := range vallFamilies() {
+		if f.NoC09 {
+			continue
+		}
 		for ci, cfg := range f.Cfgs {
 			_, slots := vbuild(f.Type, cfg, nil)
 			nalt := 0
